@@ -50,12 +50,16 @@ bits, bad = "", []
 for name, orig, fixed in FLAGS:
     if orig == fixed:
         bad.append("%s: original=%s fixed=%s" % (name, orig, fixed))
-    bits += "1" if fixed else "0"
-if bad:
-    print("objfixes: unrecognised source state: " + "; ".join(bad)); sys.exit(1)
-out = "(* generated by tools/translators/objfixes.py from %s — do not edit.  tree_cfg_bits := \"%s\" *)\n" % (REPO, bits)
+    bits += "1" if (fixed and not orig) else "0"
+# Fails closed — but never leaves a file from ANOTHER tree behind: an unrecognised site is written as `not fixed` (so that
+# C20_tree_is_fixed cannot hold and the check's model follows the original code there and is compared with whatever the
+# tree now does), the exit status says that the translation failed.
+out = "(* generated by tools/translators/objfixes.py from %s — do not edit.  tree_cfg_bits := \"%s\"%s *)\n" % (
+    REPO, bits, ("  UNRECOGNISED: " + "; ".join(bad)) if bad else "")
 out += "From PS Require Import ObjModel.\nDefinition tree_cfg : cfg :=\n  {| " + ";\n     ".join("%s := %s" % (n, "true" if b == "1" else "false") for (n, _, _), b in zip(FLAGS, bits)) + " |}.\n"
 p = os.path.join(V, "coq", "theories", "Generated_objfixes.v")
 if not os.path.exists(p) or open(p).read() != out:
     open(p, "w").write(out)
+if bad:
+    print("objfixes: unrecognised source state: " + "; ".join(bad)); sys.exit(1)
 print("objfixes: tree_cfg bits %s" % bits)
